@@ -27,6 +27,9 @@ checks = {
  "C08": ("exploration", "all single edits (thorough: + double edits) of every legal message flow, sent by a scripted peer that keeps its transcript and keys consistent",
    "For each role, flow and stack: the legal flow plus every omission, repetition, adjacent transposition and insertion of any kind of the alphabet at any position, and 16/17 warning alerts. Oracle: completes iff a prefix of what was delivered (tolerated warning alerts removed) is exactly a legal flow.",
    "Trusted: the language of legal flows as in the property statement; ECDHE needs CertificateRequest.", "5/C08"),
+ "C09": ("exploration", "seeded hostile-peer search (message mutations at every handshake state, garbage records, foreign key types, post-handshake floods) against real endpoints with panic / watchdog / buffer-bound oracles",
+   "An otherwise honest scripted peer deviates once per run (truncate / extend / flip / overwrite length-looking bytes / replace by 0-8 bytes any handshake message; raw or record-shaped garbage after k honest messages; certificates with RSA, P-256, Ed25519 keys; floods after completion incl. huge fragment announcements and many message sequence numbers on DTLCP). Oracle: no recovered panic, every task yields within the wall-clock watchdog (confirmed by re-execution in a fresh process), the run ends or blocks for input within the step budget, hook-reported buffers stay within the stated bounds. 12 000 quick / 300 000 thorough hostile runs.",
+   "Trusted: memory = what the read-only hooks report; watchdog expiry only counts when it reproduces.", "5/C09"),
 }
 not_applicable = {
  "C14": "pure function of its input (marshal/unmarshal): no schedule, clock, transport, peer or history enters; input generation is not a simulation target (DESIGN.md section 7). What the simulator sees of the codec is covered under C03/C04/C09.",
